@@ -727,7 +727,8 @@ def generate(repo: str, mods: List[ModSpec], sidecar_paths: List[str], prelude_p
     em.raw('\n} // verus!\nfn main() {}\n')
     text, linemap = em.finish()
     res['contracts'] = {c.label: {'props': c.props, 'mode': c.mode, 'file': c.file, 'sig': c.sig,
-                                  'loops': c.loops, 'src': os.path.basename(c.src), 'line': c.line}
+                                  'loops': c.loops, 'src': os.path.basename(c.src), 'line': c.line,
+                                  'proofs': [p.text for p in c.proofs]}
                         for c in sc.contracts.values()}
     return GenResult(contracts=res['contracts'], text=text, linemap=linemap, under_contract=res['under_contract'],
                      external_body=res['external_body'], rewrites=res['rewrites'], dropped=res['dropped'],
